@@ -354,6 +354,12 @@ pub async fn run_async(plan: &PlanA, opts: &ExecOpts) -> RunResult {
                 res.probe("C18.newer_schema_refused");
                 erbium_net::sim::install(None);
                 return finish(res, &kernel, t0, 1);
+            } else if matches!(plan.image, Some(Image::V0 { .. }) | Some(Image::Current { .. })) && e.contains("DHCP Pool Error") && !vfs::with_disk(|d| d.faults_fired > 0) {
+                /* a lease database of a schema erbium knows, written through SQLite itself, with
+                 * no disk fault: erbium's pool refuses to open it */
+                res.violate("C18", "C18.valid_database_refused_at_boot", format!("a {} lease database could not be opened: {}", if matches!(plan.image, Some(Image::V0 { .. })) { "pre-versioning" } else { "current-schema" }, e), 0);
+                erbium_net::sim::install(None);
+                return finish(res, &kernel, t0, 1);
             } else {
                 res.harness_error = Some(format!("first boot failed: {} -- vfs calls {:?} -- config:\n{}", e, vfs::with_disk(|d| (d.call_names.clone(), d.files.keys().cloned().collect::<Vec<_>>())), plan.configs[0].yaml()));
                 erbium_net::sim::install(None);
